@@ -29,13 +29,32 @@ def _canon(term):
     return t
 
 
+def _small(term, limit=1500):
+    """True if the term DAG has at most `limit` nodes (som normalisation of big products explodes)."""
+    seen, stack = set(), [term]
+    while stack:
+        t = stack.pop()
+        i = t.get_id()
+        if i in seen:
+            continue
+        seen.add(i)
+        if len(seen) > limit:
+            return False
+        stack.extend(t.children())
+    return True
+
+
+def _canon_key(term):
+    return _canon(term) if _small(term) else term
+
+
 def key_of(x: R):
     """Normal-form key of a real argument."""
     if x.concrete:
         return ('c', x.n)
-    n = _canon(tz(x.n))
+    n = _canon_key(tz(x.n))
     if _isz(x.d):
-        d = _canon(x.d)
+        d = _canon_key(x.d)
         return ('q', n.get_id(), d.get_id(), n, d)
     return ('p', n.get_id(), n)
 
@@ -498,6 +517,18 @@ def cossin(x):
                 d = _const_diff(a.arg, x + b.arg)
                 if d is not None and d == 0:
                     _ax(sb_and([ac == co * bc - so * bs, as_ == so * bc + co * bs]))
+    if ctx().mode != 'concrete' and len(ents) <= ctx().limits.get('semantic_addition_limit', 5):
+        # semantic (guarded) angle addition among the few arguments present: x = a + b  ->  addition formulas
+        for i, a in enumerate(ents):
+            ac, as_ = a.out
+            for b in ents[i:]:
+                bc, bs = b.out
+                _ax(sb_or([x != a.arg + b.arg, sb_and([co == ac * bc - as_ * bs, so == as_ * bc + ac * bs])]))
+            for b in ents:
+                if b is a:
+                    continue
+                bc, bs = b.out
+                _ax(sb_or([a.arg != x + b.arg, sb_and([ac == co * bc - so * bs, as_ == so * bc + co * bs])]))
     if ctx().mode != 'concrete':
         pi = PI()
         tab = {0: (1, 0), 1: (0, 1), 2: (-1, 0), 3: (0, -1)}
@@ -566,6 +597,8 @@ def power(a, b):
     if isinstance(a, C):
         return a.__pow__(int(bf)) if bf.denominator == 1 else _gap('complex ** fraction')
     a = R.of(a)
+    if bf == 2 and a.sq is not None:
+        return a.sq
     if bf.denominator == 1:
         n = bf.numerator
         if n == 0:
